@@ -2,6 +2,7 @@ import DiffxVerif.Model.Split
 import DiffxVerif.Model.Hunks
 import DiffxVerif.Model.Reader
 import DiffxVerif.Model.Writer
+import DiffxVerif.Model.Lexer
 import Driver.Codec
 import Driver.DomCodec
 import Std.Data.HashMap
@@ -234,6 +235,35 @@ def opWrite (cfg : Config) (tbl : Table) (args : List String) : String :=
     | _, _, _, _ => "E bad-args"
   | _ => "E bad-args"
 
+/-! ### lexer -/
+
+def opaqueSubs : Lexer.Subs :=
+  { json := fun s => if s.isEmpty then [] else [⟨0, .other, s⟩]
+    diff := fun s => if s.isEmpty then [] else [⟨0, .other, s⟩] }
+
+def showKind : Lexer.Kind → String
+  | .tag => "T" | .attr => "A" | .comment => "C" | .error => "E" | .keyword => "K" | .number => "N" | .other => "o"
+
+/-- consecutive `other` tokens are merged (only the DiffX rule table is compared) -/
+def mergeOther : List Lexer.Tok → List Lexer.Tok
+  | a :: b :: r =>
+    if a.kind == .other && b.kind == .other && a.pos + a.val.length == b.pos then
+      mergeOther ({ a with val := a.val ++ b.val } :: r)
+    else a :: mergeOther (b :: r)
+  | l => l
+termination_by l => l.length
+
+/-- `lex <text>` -/
+def opLex (args : List String) : String :=
+  match args with
+  | [t] =>
+    match decText t with
+    | some text =>
+      let toks := mergeOther (Lexer.lex opaqueSubs text)
+      " ".intercalate ("R" :: toks.map fun k => s!"{k.pos}:{showKind k.kind}:{textBody k.val}")
+    | none => "E bad-args"
+  | _ => "E bad-args"
+
 /-! ### object model -/
 
 def writerVersion : Text := Text.ofAscii b!"1.0"
@@ -340,6 +370,7 @@ def runOp (s : DState) (toks : List String) : String :=
   | "guess" :: args => opGuess s.cfg s.tbl args
   | "read" :: args => opRead s.cfg s.tbl args
   | "write" :: args => opWrite s.cfg s.tbl args
+  | "lex" :: args => opLex args
   | "domwrite" :: args => opDomWrite s.cfg s.tbl args
   | "domread" :: args => opDomRead s.cfg s.tbl args
   | "domstats" :: args => opDomStats s.cfg s.tbl args
